@@ -44,6 +44,7 @@ pub struct T1Profile {
     /// hold the last request handle until the run is quiescent with every stream finished,
     /// check the idle state (C19), then let the client close
     pub idle_check: bool,
+    pub graceful_only: bool,
 }
 
 impl T1Profile {
@@ -83,6 +84,7 @@ impl T1Profile {
             push_adopt_all: false,
             progress_oracle: true,
             idle_check: true,
+            graceful_only: false,
         }
     }
 }
@@ -115,6 +117,8 @@ pub struct T1Plan {
     pub fatal: FatalFault,
     pub actions: Vec<CtlAction>,
     pub pings: [u32; 2],
+    /// Some(g): g yields between user pings instead of the default ramp
+    pub ping_gap: Option<u32>,
     pub hold_main_sr: u32,
     pub accept_delay: u32,
 }
@@ -132,6 +136,7 @@ fn draw_iocfg(t: &Tape, noise: bool) -> IoCfg {
         pend_flush: *t.pick(Lane::Cfg, &[0u32, 10, 30]),
         pend_shutdown: *t.pick(Lane::Cfg, &[0u32, 30]),
         vectored: t.chance(Lane::Cfg, 1, 2),
+        pend_write_alt: t.chance(Lane::Cfg, 1, 6),
     }
 }
 
@@ -280,10 +285,17 @@ pub fn draw_plan(t: &Tape, p: &T1Profile) -> T1Plan {
     }
     if p.shutdowns && t.chance(Lane::Work, 3, 4) {
         let after = *t.pick(Lane::Work, &[0u32, 1, 5, 20, 100, 400]);
-        let ctl = if t.chance(Lane::Work, 1, 3) { Ctl::Abrupt(gen_code(t, true)) } else { Ctl::Graceful };
+        let ctl = if !p.graceful_only && t.chance(Lane::Work, 1, 3) { Ctl::Abrupt(gen_code(t, true)) } else { Ctl::Graceful };
         actions.push(CtlAction { side: 1, after_yields: after, ctl });
     }
-    let pings = if p.pings { [t.draw(Lane::Work, 4), t.draw(Lane::Work, 4)] } else { [0, 0] };
+    let mut pings = if p.pings { [t.draw(Lane::Work, 4), t.draw(Lane::Work, 4)] } else { [0, 0] };
+    // keep-alive style: user pings throughout the run, so that shutdown handshakes overlap them
+    let ping_gap = if p.graceful_only && t.chance(Lane::Work, 2, 3) {
+        pings[1] = 20 + t.draw(Lane::Work, 60);
+        Some(*t.pick(Lane::Work, &[0u32, 0, 2, 10, 40]))
+    } else {
+        None
+    };
     let fatal = if p.fatal_fault {
         draw_fatal(t)
     } else {
@@ -300,6 +312,7 @@ pub fn draw_plan(t: &Tape, p: &T1Profile) -> T1Plan {
         fatal,
         actions,
         pings,
+        ping_gap,
         hold_main_sr: *t.pick(Lane::Work, &[0u32, 1, 10, 100]),
         accept_delay: *t.pick(Lane::Work, &[0u32, 0, 1, 5]),
     }
@@ -394,8 +407,20 @@ fn apply_ctl_server(conn: &mut h2::server::Connection<crate::net::SimIo, Bytes>,
         Ctl::EnableConnect => {
             let _ = conn.enable_connect_protocol();
         }
-        Ctl::Graceful => conn.graceful_shutdown(),
-        Ctl::Abrupt(code) => conn.abrupt_shutdown(h2::Reason::from(*code)),
+        Ctl::Graceful => {
+            ctx.hist.with(|h| {
+                let st = h.step;
+                h.graceful.push((1, st));
+            });
+            conn.graceful_shutdown()
+        }
+        Ctl::Abrupt(code) => {
+            ctx.hist.with(|h| {
+                let st = h.step;
+                h.abrupt.push((1, *code, st));
+            });
+            conn.abrupt_shutdown(h2::Reason::from(*code))
+        }
         Ctl::DropConn => return (true, false),
     }
     ctx.hist.log(1, 0, || format!("ctl {:?}", c));
@@ -429,7 +454,7 @@ pub async fn client_main(ctx: Ctx, io: crate::net::SimIo, plan: Arc<T1Plan>, ctl
         ctx.spawner.spawn(n.clone(), client_stream(ctx.clone(), n, sr.clone(), prog.clone()));
     }
     if plan.pings[0] > 0 {
-        ctx.spawner.spawn("c:ping", ping_task(ctx.clone(), "c:ping".into(), 0, shared.clone(), plan.pings[0]));
+        ctx.spawner.spawn("c:ping", ping_task(ctx.clone(), "c:ping".into(), 0, shared.clone(), plan.pings[0], plan.ping_gap));
     }
     // the main handle is dropped by a separate task after a delay
     let hold = plan.hold_main_sr;
@@ -508,7 +533,7 @@ pub async fn server_main(ctx: Ctx, io: crate::net::SimIo, plan: Arc<T1Plan>, ctl
         sh.stats[1] = Some(conn.verif_stats_handle());
     }
     if plan.pings[1] > 0 {
-        ctx.spawner.spawn("s:ping", ping_task(ctx.clone(), "s:ping".into(), 1, shared.clone(), plan.pings[1]));
+        ctx.spawner.spawn("s:ping", ping_task(ctx.clone(), "s:ping".into(), 1, shared.clone(), plan.pings[1], plan.ping_gap));
     }
     ctx.status.set("s:conn", "poll_accept");
     let c2 = ctx.clone();
@@ -679,13 +704,13 @@ async fn probe_stream(ctx: Ctx, name: String, req: http::Request<h2::RecvStream>
     ctx.status.set(&name, "done");
 }
 
-async fn ping_task(ctx: Ctx, name: String, side: usize, shared: SharedRef, n: u32) {
+async fn ping_task(ctx: Ctx, name: String, side: usize, shared: SharedRef, n: u32, gap: Option<u32>) {
     let mut pp = match shared.lock().unwrap().ping[side].take() {
         Some(p) => p,
         None => return,
     };
     for i in 0..n {
-        for _ in 0..(i * 3) {
+        for _ in 0..gap.unwrap_or(i * 3) {
             yield_now().await;
         }
         match pp.send_ping(h2::Ping::opaque()) {
@@ -825,6 +850,9 @@ pub fn run_t1(profile: &T1Profile, tape: Tape, opts: &T1Opts) -> RunOut {
     let mut problems: Vec<String> = Vec::new();
     let mut resets_seen = 0usize;
 
+    // a run that is still delivering body bytes when the step budget ends is slow, not stuck
+    let budget_mark_step = exec.cfg.max_steps / 4 * 3;
+    let mut budget_mark_bytes = 0u64;
     let outcome = loop {
         // scheduled fatal faults keyed by step
         match &plan.fatal {
@@ -852,6 +880,9 @@ pub fn run_t1(profile: &T1Profile, tape: Tape, opts: &T1Opts) -> RunOut {
                 net.set_caps(1, plan.net_caps[1].0, plan.net_caps[1].1);
             }
         }
+        if exec.step == budget_mark_step {
+            budget_mark_bytes = hist.app_bytes();
+        }
         let o = exec.step_once();
         let ent = match o {
             StepOutcome::Ran(e) => e,
@@ -862,6 +893,27 @@ pub fn run_t1(profile: &T1Profile, tape: Tape, opts: &T1Opts) -> RunOut {
                 if only_expected && unfinished.iter().any(|(n, _)| n == "c:main-handle") && cap_phase == 0 {
                     idle_checked = true;
                     check_idle_state(profile, &plan, &shared, &mon, &hist, &mut idle_violations, exec.step);
+                    // C15: a graceful shutdown that has nothing left to drain closes the
+                    // connection by itself (nobody has dropped a connection or the last
+                    // request handle yet: the server can only be gone because it closed)
+                    {
+                        let (graceful, abrupt) = hist.with(|h| (h.graceful.clone(), h.abrupt.clone()));
+                        let server_done = shared.lock().unwrap().conn_done[1];
+                        let blocked = net.writer_blocked(0) || net.writer_blocked(1);
+                        if !graceful.is_empty() && abrupt.is_empty() && !blocked {
+                            hist.probe("graceful_drained_close_checked");
+                            if !server_done {
+                                let cause = match (leak_cause(&mon, 0), leak_cause(&mon, 1)) { ("other", b) => b, (a, _) => a };
+                                idle_violations.push(Violation::new(
+                                    "C15",
+                                    "graceful-shutdown-not-closed-when-drained",
+                                    if cause == "other" { String::new() } else { format!("{}:", cause) },
+                                    format!("server called graceful_shutdown at step {}; every stream has finished and the system is quiescent at step {}, but the server connection is still open (GOAWAYs sent: {:?})", graceful[0].1, exec.step, mon.ep[1].goaway_out),
+                                    exec.step,
+                                ));
+                            }
+                        }
+                    }
                     // C16 (iii): a fresh stream asks for everything
                     let sr = shared.lock().unwrap().probe_sr.take();
                     let both_alive = { let sh = shared.lock().unwrap(); !sh.conn_done[0] && !sh.conn_done[1] };
@@ -962,7 +1014,14 @@ pub fn run_t1(profile: &T1Profile, tape: Tape, opts: &T1Opts) -> RunOut {
     }
     match &outcome {
         StepOutcome::Livelock(t) => violations.push(Violation::new("C08", "busy-loop", t.split(':').next().unwrap_or("").to_string(), format!("no transport or API progress for {} steps; last task {}", exec.cfg.livelock_limit, t), step)),
-        StepOutcome::StepBudget => violations.push(Violation::new("C06", "step-budget", "", format!("run did not finish within {} steps", exec.cfg.max_steps), step)),
+        StepOutcome::StepBudget => {
+            let now = hist.app_bytes();
+            if now > budget_mark_bytes {
+                hist.probe("step_budget_exhausted_while_delivering");
+            } else {
+                violations.push(Violation::new("C06", "step-budget", "", format!("run did not finish within {} steps and delivered no body byte during the last quarter of them", exec.cfg.max_steps), step));
+            }
+        }
         _ => {}
     }
     let mut unfinished = exec.unfinished();
@@ -994,9 +1053,10 @@ pub fn run_t1(profile: &T1Profile, tape: Tape, opts: &T1Opts) -> RunOut {
                 if let Some(st) = &sh.stats[side] {
                     let v = st.snapshot();
                     s.push_str(&format!(
-                        " [{} conn_send_win={} conn_recv_win={}/{} streams={:?}]",
+                        " [{} conn_send_win={}/{} conn_recv_win={}/{} streams={:?}]",
                         if side == 0 { "client" } else { "server" },
                         v.conn_send_window,
+                        v.conn_send_available,
                         v.conn_recv_window,
                         v.conn_recv_available,
                         v.streams
@@ -1122,6 +1182,67 @@ pub fn run_t1(profile: &T1Profile, tape: Tape, opts: &T1Opts) -> RunOut {
     if clean && profile.cooperative {
         check_legal_resets(&hist, &mon, &mut violations, step);
     }
+    // C15: GOAWAY last-stream-id covers every stream already handed to the application;
+    // the peer's code and origin surface in the client's connection result; a graceful
+    // shutdown lets every accepted stream finish
+    if profile.shutdowns {
+        let (accepts, abrupt, graceful, cres) = hist.with(|h| (h.accept_step.clone(), h.abrupt.clone(), h.graceful.clone(), h.conn_results.clone()));
+        let srv = &mon.ep[1];
+        for (i, g) in srv.goaway_out.iter().enumerate() {
+            let gstep = srv.goaway_out_step.get(i).copied().unwrap_or(u64::MAX);
+            for (sid, st) in &accepts {
+                // strictly earlier step: the accept happened in an earlier poll than the encode
+                if *st < gstep && *sid > g.0 && g.1 == 0 {
+                    violations.push(Violation::new("C15", "goaway-last-id-below-accepted-stream", "", format!("server sent GOAWAY(last={}, code={}) at step {} although stream {} had been handed to the application at step {}", g.0, g.1, gstep, sid, st), step));
+                }
+            }
+        }
+        if let (Some((_, code, _)), Some(Err(e))) = (abrupt.first(), &cres[0]) {
+            // the client learns the server's code, and that it came from the peer's GOAWAY
+            let io_first = e.is_io;
+            if !io_first && (e.reason != Some(*code) || !e.is_remote || !e.is_go_away) && *code != 0 {
+                violations.push(Violation::new("C15", "client-result-does-not-report-peer-goaway", "", format!("server called abrupt_shutdown({}); client connection result: {:?}", code, e), step));
+            }
+        }
+        let conn_failed = cres.iter().any(|r| matches!(r, Some(Err(e)) if e.reason != Some(0)));
+        if abrupt.is_empty() && !graceful.is_empty() && !fatal_cfg && quiescent && !mutual_block && !profile.work.aborts && !conn_failed {
+            // every stream the server accepted must run to completion in both directions
+            hist.with(|h| {
+                for (sid, s) in &h.streams {
+                    if !accepts.contains_key(sid) {
+                        continue;
+                    }
+                    for (di, d) in s.dirs.iter().enumerate() {
+                        if d.s_end && d.s_abort.is_none() && !d.r_end && !d.r_stopped && s.dirs[1 - di].s_abort.is_none() && !s.dirs[1 - di].r_stopped {
+                            violations.push(Violation::new("C15", "accepted-stream-not-completed-after-graceful-shutdown", format!("dir{}", di), format!("stream {} dir {}: submitted completely ({} bytes) but the receiver got {} bytes, end={}, err={:?} after graceful_shutdown", sid, di, d.s_body, d.r_body, d.r_end, d.r_err), step));
+                        }
+                    }
+                }
+            });
+        }
+    }
+    // C05 inbound: every peer-initiated stream the server processed is either handed to the
+    // application or refused on the wire - never dropped silently
+    if quiescent && !fatal_cfg && !profile.shutdowns {
+        let server_ok = hist.with(|h| matches!(h.conn_results[1], Some(Ok(())) | None));
+        if server_ok && mon.ep[1].events.is_empty() {
+            let accepted: std::collections::BTreeSet<u32> = hist.with(|h| h.streams.iter().filter(|(_, s)| s.dirs[0].r_head.is_some()).map(|(k, _)| *k).collect());
+            for (sid, m) in &mon.ep[1].streams {
+                if m.local_init || m.reserved || !m.hdr_in || sid % 2 == 0 {
+                    continue;
+                }
+                if !accepted.contains(sid) && m.rst_out == 0 && !m.rst_in && mon.ep[1].goaway_out.is_empty() {
+                    violations.push(Violation::new(
+                        "C05",
+                        "stream-neither-delivered-nor-refused",
+                        "",
+                        format!("server processed the HEADERS of stream {} but neither handed it to the application nor sent RST_STREAM for it (advertised limit {:?})", sid, plan.scfg.max_concurrent_streams),
+                        step,
+                    ));
+                }
+            }
+        }
+    }
     // C07: a stream whose complete message had been received before the connection ended
     // still delivers it (the receiver had processed END_STREAM; nobody reset the stream)
     if fatal_cfg || profile.shutdowns {
@@ -1154,6 +1275,20 @@ pub fn run_t1(profile: &T1Profile, tape: Tape, opts: &T1Opts) -> RunOut {
     }
     let streams_done = check_fidelity(&hist, &mon, clean && profile.cooperative && conn_ok, &mut violations, step);
 
+    // C16 (iv): a capacity waiter that never finishes in a cooperative run
+    if let Some(v) = violations.iter().find(|v| v.prop == "C06" && v.oracle == "parked-at-quiescence" && v.disc.split('+').any(|k| k.ends_with("poll_capacity"))).cloned() {
+        violations.push(Violation { prop: "C16", oracle: "capacity-waiter-never-woken", disc: String::new(), msg: v.msg.clone(), step: v.step });
+    }
+    // C17: resetting / dropping a stream must not disturb other streams
+    let had_reset = hist.with(|h| !h.resets.is_empty());
+    if had_reset {
+        let extra: Vec<Violation> = violations
+            .iter()
+            .filter(|v| v.prop == "C01" && matches!(v.oracle, "body-corrupt" | "body-longer-than-submitted" | "clean-end-without-full-delivery" | "is-end-stream-early" | "complete-message-not-delivered" | "head-mismatch"))
+            .map(|v| Violation { prop: "C17", oracle: "other-stream-disturbed-in-run-with-resets", disc: v.oracle.to_string(), msg: format!("(a stream was reset or abandoned in this run) {}", v.msg), step: v.step })
+            .collect();
+        violations.extend(extra);
+    }
     // C20: with handle operations injected at the connection's lock / atomic yield points,
     // every guarantee must still hold; a violation of any of them is a C20 violation too
     if profile.inject {
